@@ -55,7 +55,7 @@ class StrainTask(FragmentTask):
         v, B = out.value, inp["B"]
         calls, bmap = v.get("mp_calls"), v.get("box_index_map")
         ok = isinstance(calls, list) and len(calls) == 1 and isinstance(calls[0], dict) and isinstance(bmap, list) and len(bmap) == 1
-        ctx.oblige("post.one-task-and-one-id-list-appended", ok, "P")
+        ctx.structure("post.one-task-and-one-id-list-appended", ok)
         if not ok:
             return
         call = calls[0]
